@@ -55,12 +55,13 @@ type Break struct {
 }
 
 type Case struct {
-	Msgs    []TMsg  `json:"msgs"`
-	Sched   []int   `json:"sched,omitempty"` // interleaving choices; empty = sequential
-	SegKind int     `json:"seg_kind"`
-	Seg     []int   `json:"seg,omitempty"`
-	Break   *Break  `json:"break,omitempty"`
-	Local   []Local `json:"local,omitempty"` // Set Chunk Size packets this endpoint sends itself while reading
+	Msgs     []TMsg  `json:"msgs"`
+	Sched    []int   `json:"sched,omitempty"` // interleaving choices; empty = sequential
+	SegKind  int     `json:"seg_kind"`
+	Seg      []int   `json:"seg,omitempty"`
+	Break    *Break  `json:"break,omitempty"`
+	Local    []Local `json:"local,omitempty"`    // Set Chunk Size packets this endpoint sends itself while reading
+	Redecode int     `json:"redecode,omitempty"` // > 0: after every Redecode-th message the application decodes one of the messages it received earlier once more
 }
 
 // Local: before reading message At, the reading endpoint writes a Set Chunk Size of its own.
@@ -297,6 +298,10 @@ func runCase(c Case) (st stats, err error) {
 			return st, fmt.Errorf("message %d of %d: %v", i, len(b.want), e)
 		}
 		kept = append(kept, m)
+		// decoding a message received earlier (again) is a pure function of that message: it must not touch the reader's state
+		if c.Redecode > 0 && i%c.Redecode == 0 {
+			p.DecodeMessage(kept[(i*7)%len(kept)])
+		}
 	}
 	for i, m := range kept {
 		if e := rtmpx.Same(m, b.want[i]); e != nil {
@@ -471,11 +476,14 @@ func genCase(t *rapid.T) Case {
 	default:
 		c.Sched = rapid.SliceOfN(rapid.IntRange(0, 11), 1, 24).Draw(t, "sched")
 	}
+	if rapid.IntRange(0, 2).Draw(t, "redecodek") == 0 {
+		c.Redecode = rapid.IntRange(1, 3).Draw(t, "redecode")
+	}
 	for k := rapid.IntRange(0, 2).Draw(t, "nlocal"); k > 0 && rapid.Bool().Draw(t, "local"); k-- {
 		c.Local = append(c.Local, Local{At: rapid.IntRange(0, len(c.Msgs)).Draw(t, "localat"), Size: rapid.SampledFrom([]uint32{1, 64, 127, 129, 4096, 65536, 1 << 24}).Draw(t, "localsize")})
 	}
 	c.SegKind = rapid.IntRange(0, xport.SegKinds-1).Draw(t, "segk")
-	if c.SegKind == 2 || c.SegKind == 3 {
+	if c.SegKind == 2 || c.SegKind == 3 || c.SegKind == 5 {
 		c.Seg = rapid.SliceOfN(rapid.IntRange(1, 20), 1, 8).Draw(t, "seg")
 	}
 	if rapid.IntRange(0, 4).Draw(t, "neg") == 0 {
